@@ -115,6 +115,52 @@ def check_space(desc, res, add, jit_filter, periods=None):
                 res["violations"].append({"key": "axis_names", "what": f"period {t}: axis_names {list(info.axis_names)} expected {exp_axes}"})
 
 
+def check_used_structures(desc, res, add):
+    """W10: the spaces and choice segments that the generated solve function really holds
+    for each period (keywords of the returned functools.partial) must be the ones the
+    statement describes for THAT period.  If the generated function is not a partial with
+    these keywords the monitor is 'unavailable' (never a verdict)."""
+    from vlib import dsl, pipeline
+    from vlib.refmodel import Ref
+
+    ref = Ref(desc)
+    T = desc["n_periods"]
+    try:
+        f, _ = pipeline.get_lcm_function(dsl.build_lcm_model(desc), "solve", jit=False)
+    except Exception as e:  # noqa: BLE001
+        res["violations"].append({"key": pipeline.exc_key(e, "get_lcm_function"), "what": pipeline.exc_text(e)})
+        return
+    kw = getattr(f, "keywords", None) or {}
+    spaces, calcs = kw.get("state_choice_spaces"), kw.get("emax_calculators")
+    if not isinstance(spaces, list) or not isinstance(calcs, list) or len(spaces) != T or len(calcs) != T:
+        add("w10_unavailable")
+        return
+    add("w10_functions_inspected")
+    for t in range(T):
+        exp = ref.expected_space(t)
+        if exp is None:
+            continue
+        try:
+            sv = {k: np.asarray(v) for k, v in spaces[t].sparse_vars.items()}
+        except Exception:  # noqa: BLE001
+            add("w10_unavailable")
+            return
+        add("w10_periods_checked")
+        for v in ref.sparse_vars:
+            if v in sv and (sv[v].shape != exp["stored"][v].shape or not np.array_equal(sv[v], exp["stored"][v])):
+                res["violations"].append({"key": "used_space_of_other_period", "what": f"the space held by the solve function for period {t} stores {v} = {sv[v].tolist()[:12]}; the filter-passing combinations of period {t} are {exp['stored'][v].tolist()[:12]}"})
+                break
+        seg = (getattr(calcs[t], "keywords", None) or {}).get("choice_segments", "absent")
+        if isinstance(seg, str):
+            add("w10_segments_unavailable")
+            continue
+        if ref.sparse_states and isinstance(seg, dict) and "segment_ids" in seg and "num_segments" in seg:
+            add("w10_segments_checked")
+            ids = np.asarray(seg["segment_ids"])
+            if ids.shape != exp["segment_ids"].shape or not np.array_equal(ids, exp["segment_ids"]) or int(seg["num_segments"]) != exp["num_segments"]:
+                res["violations"].append({"key": "used_segments_of_other_period", "what": f"the choice segments held by the solve function for period {t} are {ids.tolist()[:16]} (num {int(seg['num_segments'])}); grouping the stored combinations of period {t} by state rank gives {exp['segment_ids'].tolist()[:16]} (num {exp['num_segments']})"})
+
+
 def run_case(case):
     from vlib import pipeline
 
@@ -147,7 +193,7 @@ def run_case(case):
         nc = int(rng.integers(0, 4))
         ss = tuple(int(x) for x in rng.integers(2, 4, ns))
         cs = tuple(int(x) for x in rng.integers(2, 4, nc))
-        T = int(rng.integers(1, 4))
+        T = int(rng.integers(1, 5))
         snames = [f"s{i}" for i in range(ns)]
         cnames = [f"c{i}" for i in range(nc)]
         states = [[s, {"kind": "disc", "n": n}] for s, n in zip(snames, ss)]
@@ -194,6 +240,7 @@ def run_case(case):
         if any(not ref.filter_mask(t).any() for t in range(T)):
             return {"status": "screened", "counters": {"screened_out": 1}, "nontrivial": False, "sig": None}
         check_space(desc, res, add, jit_filter=bool(rng.random() < 0.5))
+        check_used_structures(desc, res, add)
         res["sig"] = str((ss, cs, T, nf, [f[1] for f in fns if f[0].endswith("_filter")]))
         res["nontrivial"] = any(not ref.filter_mask(t).all() for t in range(T))
         res["sample"] = {"kind": "sampled", "desc": {k: v for k, v in desc.items() if k != "tables"}}
